@@ -219,7 +219,8 @@ def gen_request_parsers():
         for fr in ("TCP", "RTU"):
             T = f"{name}Request{fr}"
             o = 6 if fr == "TCP" else 0
-            cl = ["safety[C10]", "noOverread[C10]", "modifies[C10] nothing"]
+            # a panic in a request parser also breaks the classifier/dispatcher agreement (C18) and the server's reply (C16)
+            cl = ["safety[C10,C16,C18]", "noOverread[C10]", "modifies[C10] nothing"]
             pf = payload_field(kind)
             if pf:
                 cl.append(f"fresh[C09] res.{pf}")
@@ -246,7 +247,7 @@ def gen_request_dispatchers():
     emit("// ---- request dispatchers ----", "")
     for disp, fr, rtype in (("ParseTCPRequest", "TCP", "Request"), ("ParseRTURequest", "RTU", "Request"), ("ParseRTURequestWithCRC", "RTU", "Response")):
         o = 6 if fr == "TCP" else 0
-        cl = ["safety[C10]", "noOverread[C10]", "modifies[C10] nothing", "ensures[C10] err != nil ==> nilish(res)"]
+        cl = ["safety[C10,C16,C18]", "noOverread[C10]", "modifies[C10] nothing", "ensures[C10] err != nil ==> nilish(res)"]
         crc = disp.endswith("WithCRC")
         if crc:
             cl.append("ensures[C03] len(data) >= 4 && !crcTrailer(data, len(data)) ==> err == ErrInvalidCRC && nilish(res)")
